@@ -602,7 +602,81 @@ impl Kind for KZbdd {
     }
 }
 
+/// C14: the same lines on an uncapped reference manager (whose output is printed and compared
+/// with the model) and on a manager with the capacity given in the `mgr` line (oracles only)
+pub struct Capped<K: Kind> {
+    reference: Bf<K>,
+    capped: Bf<K>,
+    cap: usize,
+    threads: u32,
+}
+
+impl<K: Kind> crate::Scenario for Capped<K> {
+    fn reset(&mut self) {
+        self.reference.reset();
+        self.capped.reset();
+    }
+    fn step(&mut self, line: &str, ctx: &mut Ctx) -> String {
+        let w = crate::words(line);
+        if w[0] == "mgr" {
+            self.cap = w.iter().find_map(|x| x.strip_prefix("nodes=")).map(|x| x.parse().unwrap()).unwrap_or(65536);
+            self.threads = w.iter().find_map(|x| x.strip_prefix("threads=")).map(|x| x.parse().unwrap()).unwrap_or(1);
+            let ref_line: Vec<String> = w.iter().map(|x| if x.starts_with("nodes=") { "nodes=65536".to_string() } else { x.to_string() }).collect();
+            let out = self.reference.step(&ref_line.join(" "), ctx);
+            // variables are created in the capped manager too (no nodes needed)
+            let _ = self.capped.step(line, ctx);
+            return out;
+        }
+        let out_ref = self.reference.step(line, ctx);
+        let mut sub = Ctx { line_no: ctx.line_no, case: ctx.case.clone(), failures: Vec::new(), stats: std::collections::BTreeMap::new(), extra: ctx.extra.clone() };
+        let out_cap = self.capped.step(line, &mut sub);
+        for f in sub.failures.drain(..) {
+            // failures of the capped run are reported under their own signature
+            ctx.failures.push(f.replace("\"sig\":\"", "\"sig\":\"capped-"));
+            ctx.count("oracle_failures");
+        }
+        if out_cap == "OOM" {
+            ctx.count("oom_results");
+            // the error is legitimate only if the store really is full (single-threaded managers
+            // allocate deterministically; with worker threads per-thread chunks may be reserved)
+            let (inner, _) = self.capped.mref().with_manager_shared(|m| (m.num_inner_nodes(), m.num_levels()));
+            if self.threads == 1 && inner < self.cap {
+                ctx.fail("spurious-oom", &format!("`{}` reported out of memory although only {} of {} node slots are in use", line, inner, self.cap));
+            }
+            // the manager is intact: structure, reference counts, all existing handles
+            let mut sub2 = Ctx { line_no: ctx.line_no, case: ctx.case.clone(), failures: Vec::new(), stats: std::collections::BTreeMap::new(), extra: ctx.extra.clone() };
+            let _ = self.capped.step("rcchk", &mut sub2);
+            let names: Vec<String> = self.capped.h.keys().cloned().collect();
+            for k in names {
+                let f = self.capped.h[&k].clone();
+                let act = self.capped.actual_tt(&f, &mut sub2, "after OOM");
+                if act != self.capped.tt[&k] {
+                    sub2.fail("oom-corrupted-handle", &format!("handle {} changed by a failed operation", k));
+                    break;
+                }
+            }
+            for f in sub2.failures.drain(..) {
+                ctx.failures.push(f.replace("\"sig\":\"", "\"sig\":\"after-oom-"));
+                ctx.count("oracle_failures");
+            }
+        } else if out_cap != out_ref && out_cap != "bad-op" && !matches!(w[0], "gc" | "nodes" | "dump") {
+            ctx.fail("capacity-dependent-result", &format!("`{}` gives {} under capacity {} but {} without limit", line, out_cap, self.cap, out_ref));
+        } else if out_cap != "bad-op" {
+            ctx.count("ok_under_capacity");
+        }
+        out_ref
+    }
+}
+
 pub fn make(kind: &str, extra: &std::collections::BTreeMap<String, String>) -> Box<dyn crate::Scenario> {
+    if extra.get("capped").is_some() {
+        return match kind {
+            "bdd" => Box::new(Capped { reference: Bf::<KBdd>::new(extra), capped: Bf::<KBdd>::new(extra), cap: 0, threads: 1 }),
+            "bcdd" => Box::new(Capped { reference: Bf::<KBcdd>::new(extra), capped: Bf::<KBcdd>::new(extra), cap: 0, threads: 1 }),
+            "zbdd" => Box::new(Capped { reference: Bf::<KZbdd>::new(extra), capped: Bf::<KZbdd>::new(extra), cap: 0, threads: 1 }),
+            _ => panic!("unknown kind {kind}"),
+        };
+    }
     match kind {
         "bdd" => Box::new(Bf::<KBdd>::new(extra)),
         "bcdd" => Box::new(Bf::<KBcdd>::new(extra)),
